@@ -196,8 +196,11 @@ class Layout:
         return s
 
 
-def doc_block(lines, indent, opener="#[[[", leaderless=False):
+def doc_block(lines, indent, opener="#[[[", leaderless=False, raw=None):
     out = [indent + opener]
+    if raw is not None:
+        # free-form body (C04 only): lines exactly as given after the uniform block indentation
+        return "\n".join(out + [indent + l for l in raw] + [indent + "#]]"]) + "\n"
     for t in lines:
         if leaderless:
             out.append(indent + t)
@@ -231,9 +234,9 @@ def render(mod, layout=None):
                 ind = "".join(lay.rng.choice("  \t") for _ in range(lay.rng.randint(1, 9)))
             else:
                 ind = ""
-            if v.leaderless:
+            if v.leaderless and lay.doc_indent is None:
                 ind = ""
-            out.append(doc_block(v.doc, ind, leaderless=v.leaderless))
+            out.append(doc_block(v.doc, ind, leaderless=v.leaderless, raw=getattr(v, "raw_lines", None)))
             i += 1
             continue
         if k == "ID":
